@@ -297,7 +297,9 @@ class Sim:
                 self.probe("hook_resumed_during_disconnect")
                 self.probe(f"hook_resumed_during_disconnect:{hname}:{ep.connection_state.name}")
         stall_p = self.cfg.get("p_hook_stall", 0.0)
-        if stall_p and self.hook_p(label, hname) > 0 and self.decide(f"hookstall:{label}:{hname}:{n}", stall_p):
+        only = self.cfg.get("stall_hooks")
+        if stall_p and (not only or hname in only) and self.hook_p(label, hname) > 0 \
+                and self.decide(f"hookstall:{label}:{hname}:{n}", stall_p):
             # fault injection: a stalled application callback - it comes back by itself after a stretch of
             # simulated time in which the endpoint's other tasks (watchdog, senders, a disconnect) go on
             import asyncio
